@@ -442,8 +442,12 @@ class C13(Base):
         if form[0] == "none":
             return
         before = self.snap(mb)
+        # the index as the caller writes it: non-negative or counted from the end
+        li = i - len(mb.entries) if op.get("neg") else i
+        if op.get("neg"):
+            self.probes["negative_index_assignment"] += 1
         try:
-            mb.obj[i] = make_content(form)
+            mb.obj[li] = make_content(form)
             exc = None
         except Exception as e:
             exc = e
@@ -593,7 +597,7 @@ def gen_c13(rng, tier):
         elif mode == "meters" and r < 0.6:
             ops.append({"op": "bar", "key": "C", "meter": rng.choice(VALID_METERS + INVALID_METERS)})
         elif mode == "edit" and r < 0.25:
-            ops.append({"op": "setitem", "bar": b, "index": rng.randrange(8), "content": gen_form(rng)})
+            ops.append({"op": "setitem", "bar": b, "index": rng.randrange(8), "content": gen_form(rng), "neg": rng.random() < 0.4})
         elif mode == "edit" and r < 0.5:
             ops.append({"op": "place_at", "bar": b, "index": rng.randrange(8), "content": gen_form(rng)})
         elif r < 0.55:
@@ -2187,7 +2191,7 @@ DESCR = {
     "C13": {
         "rule": "Each run is one seeded history on up to three bars: Bar()/set_meter with valid, (0,0) and invalid meters (fractional units under a line budget), place_notes with every content form, place_rest, '+', remove_last_entry, index assignment, place_notes_at, empty, queries; values are symbolic (base longa..128th, dots 0-4, triplet/quintuplet/septuplet) and the model keeps exact Fractions. A fill mode packs bars to exactly their capacity and then issues refused operations. All clauses are evaluated after every operation. Non-trivial = at least two operations applied. Distinct = distinct run shape (sequence of (operation, outcome)).",
         "clauses": ["C13.starts", "C13.total", "C13.accept", "C13.append", "C13.refuse_atomic", "C13.edit_local", "C13.full", "C13.meter", "C13.stall"],
-        "probes": ["bar_exactly_full", "placement_fills_bar_exactly", "tuplet_fills_bar_exactly", "fullness_dont_care_band", "fractional_beat_unit", "model_resync"],
+        "probes": ["bar_exactly_full", "placement_fills_bar_exactly", "tuplet_fills_bar_exactly", "fullness_dont_care_band", "fractional_beat_unit", "negative_index_assignment", "model_resync"],
     },
 }
 
